@@ -1269,6 +1269,10 @@ def run(tier, seed):
     # 1 translate
     divisor = 10
     try:
+        translate.translate("C01")      # the decorated-dialogue theorems import ScrapliProps.C02: its generated channel constants must come from the same tree
+    except Exception as e:
+        ck.proof_broken("translator gen/c01.py (imported by the decorated-dialogue theorems)", repr(e))
+    try:
         translate.translate(PID)
         import gen.c09 as G
         divisor = G.return_divisor()
